@@ -1,0 +1,40 @@
+//go:build verif
+
+// Contracts for the ABCI application API (comment-only).
+package api
+
+//@ func UnavailableStateError
+//@   trusted
+//@   pure
+//@   ensures err == nil ==> result == nil
+//@   ensures err != nil ==> result != nil && unavail(result)
+
+//@ func IsUnavailableStateError
+//@   trusted
+//@   pure
+//@   ensures result == unavail(err)
+
+// ---- context modes ----
+
+//@ ghost func IsCheck(c *Context) bool { return c.mode == ContextCheckTx }
+//@ ghost func IsSim(c *Context) bool { return c.mode == ContextSimulateTx }
+//@ ghost func IsInit(c *Context) bool { return c.mode == ContextInitChain }
+
+//@ func Context.IsCheckOnly
+//@   props C08 C09
+//@   modifies nothing
+//@   ensures result == IsCheck(c)
+
+//@ func Context.IsSimulation
+//@   props C08 C09
+//@   modifies nothing
+//@   ensures result == IsSim(c)
+
+//@ func Context.IsInitChain
+//@   props C08
+//@   modifies nothing
+//@   ensures result == IsInit(c)
+
+//@ func Context.SetGasAccountant
+//@   props C08 C09
+//@   modifies c.gasAccountant
